@@ -1,17 +1,19 @@
 #!/usr/bin/env python3
 """Prints the markdown table of DESIGN.md 10.6 from the evaluation logs (tools/eval_seeded.sh output) and the meta.json files."""
 import json, re, sys, glob
+# usage: seeded_table.py <corpus dir name: seeded|seeded2> <eval logs...>
+corpus = sys.argv[1]
 rows = {}
-for f in sys.argv[1:]:
+for f in sys.argv[2:]:
     for l in open(f):
-        m = re.match(r'/verif/seeded/(C\d+)/(\d+) (C\d+) violations=(\d+) :: (.*)', l)
+        m = re.match(r'/verif/' + corpus + r'/(C\d+)/(\d+) (C\d+) violations=(\d+) :: (.*)', l)
         if m:
             pid, n, chk, v, rest = m.groups()
             ob = re.findall(r'obligation (\S+)', rest)
             rows[(pid, int(n))] = (int(v), ob[:2])
 print('| seeded change | what was changed | reported by |')
 print('|---|---|---|')
-for d in sorted(glob.glob('/verif/seeded/C*/*/meta.json')):
+for d in sorted(glob.glob('/verif/' + corpus + '/C*/*/meta.json')):
     pid, n = d.split('/')[3], int(d.split('/')[4])
     meta = json.load(open(d))
     v, ob = rows.get((pid, n), (None, []))
